@@ -19,8 +19,8 @@ type (
 	Pool      = sync.Pool
 )
 
-func OnceFunc(f func()) func()                           { return sync.OnceFunc(f) }
-func OnceValue[T any](f func() T) func() T               { return sync.OnceValue(f) }
+func OnceFunc(f func()) func()                                 { return sync.OnceFunc(f) }
+func OnceValue[T any](f func() T) func() T                     { return sync.OnceValue(f) }
 func OnceValues[T1, T2 any](f func() (T1, T2)) func() (T1, T2) { return sync.OnceValues(f) }
 
 // Mutex mirrors sync.Mutex.
@@ -38,19 +38,25 @@ func (m *Mutex) Lock() {
 		return
 	}
 	m.real.Lock()
+	sched.RaceOff()
 	m.held.Store(1)
+	sched.RaceOn()
 }
 
 func (m *Mutex) TryLock() bool {
 	if m.real.TryLock() {
+		sched.RaceOff()
 		m.held.Store(1)
+		sched.RaceOn()
 		return true
 	}
 	return false
 }
 
 func (m *Mutex) Unlock() {
+	sched.RaceOff()
 	m.held.Store(0)
+	sched.RaceOn()
 	m.real.Unlock()
 }
 
@@ -70,7 +76,9 @@ func (m *RWMutex) Lock() {
 		return
 	}
 	m.real.Lock()
+	sched.RaceOff()
 	m.w.Store(1)
+	sched.RaceOn()
 }
 
 func (m *RWMutex) TryLock() bool {
@@ -82,7 +90,9 @@ func (m *RWMutex) TryLock() bool {
 }
 
 func (m *RWMutex) Unlock() {
+	sched.RaceOff()
 	m.w.Store(0)
+	sched.RaceOn()
 	m.real.Unlock()
 }
 
@@ -95,7 +105,9 @@ func (m *RWMutex) RLock() {
 		return
 	}
 	m.real.RLock()
+	sched.RaceOff()
 	m.r.Add(1)
+	sched.RaceOn()
 }
 
 func (m *RWMutex) TryRLock() bool {
@@ -107,7 +119,9 @@ func (m *RWMutex) TryRLock() bool {
 }
 
 func (m *RWMutex) RUnlock() {
+	sched.RaceOff()
 	m.r.Add(-1)
+	sched.RaceOn()
 	m.real.RUnlock()
 }
 
@@ -143,9 +157,11 @@ func (c *Cond) realCond() *sync.Cond {
 func (c *Cond) Wait() {
 	if s := sched.Current(); s != nil {
 		w := &waiter{}
+		sched.RaceOff()
 		c.mu.Lock()
 		c.waiters = append(c.waiters, w)
 		c.mu.Unlock()
+		sched.RaceOn()
 		c.L.Unlock()
 		s.Point(sched.Req{Kind: sched.KCond, Label: "condwait",
 			Ready: func() bool { return w.signaled.Load() }})
@@ -156,21 +172,25 @@ func (c *Cond) Wait() {
 }
 
 func (c *Cond) Signal() {
+	sched.RaceOff()
 	c.mu.Lock()
 	if len(c.waiters) > 0 {
 		c.waiters[0].signaled.Store(true)
 		c.waiters = c.waiters[1:]
 		c.mu.Unlock()
+		sched.RaceOn()
 		return
 	}
 	r := c.real
 	c.mu.Unlock()
+	sched.RaceOn()
 	if r != nil {
 		r.Signal()
 	}
 }
 
 func (c *Cond) Broadcast() {
+	sched.RaceOff()
 	c.mu.Lock()
 	for _, w := range c.waiters {
 		w.signaled.Store(true)
@@ -178,6 +198,7 @@ func (c *Cond) Broadcast() {
 	c.waiters = nil
 	r := c.real
 	c.mu.Unlock()
+	sched.RaceOn()
 	if r != nil {
 		r.Broadcast()
 	}
